@@ -62,7 +62,7 @@ def step(cls, k=3, nflav=3, **sel):
 
 
 def step3(**kw):
-    return step(k=3, nflav=3, **kw)
+    return step(k=3, nflav=4, **kw)
 
 
 def step3t(**kw):
